@@ -856,7 +856,39 @@ func goStr(v cty.Value) (s string) {
 			s = fmt.Sprintf("<GoString panic: %v>", r)
 		}
 	}()
-	return v.GoString()
+	if v == cty.NilVal {
+		return "cty.NilVal"
+	}
+	if !v.ContainsMarked() {
+		return v.GoString()
+	}
+	// deterministic rendering of marked values (the library prints mark sets
+	// in map order)
+	inner, marks := v.Unmark()
+	var ms []string
+	for m := range marks {
+		ms = append(ms, fmt.Sprintf("%#v", m))
+	}
+	sort.Strings(ms)
+	suffix := ""
+	if len(ms) > 0 {
+		suffix = ".WithMarks(" + strings.Join(ms, ",") + ")"
+	}
+	if !inner.ContainsMarked() {
+		return inner.GoString() + suffix
+	}
+	var parts []string
+	if inner.Type().IsMapType() || inner.Type().IsObjectType() {
+		for it := inner.ElementIterator(); it.Next(); {
+			k, e := it.Element()
+			parts = append(parts, fmt.Sprintf("%q:%s", k.AsString(), goStr(e)))
+		}
+	} else {
+		for _, c := range children(inner) {
+			parts = append(parts, goStr(c))
+		}
+	}
+	return fmt.Sprintf("%s{%s}%s", tsOf(inner.Type()).Canon(), strings.Join(parts, ", "), suffix)
 }
 
 // shapeOf gives a compact class description of a value for known-finding
